@@ -54,6 +54,39 @@ ALL_FUNCS = UNARY_FUNCS + ("l2_norm", "maximum")
 
 
 # ----------------------------------------------------------------------------- AST utils
+def plain(x):
+    """Plain Python copy of an AST / case (numpy scalars, arrays and str_ converted), without
+    a depth limit."""
+    if isinstance(x, dict):
+        return {str(k): plain(v) for k, v in x.items()}
+    if isinstance(x, (list, tuple)):
+        return [plain(v) for v in x]
+    if isinstance(x, np.ndarray):
+        return plain(x.tolist())
+    if isinstance(x, np.bool_):
+        return bool(x)
+    if isinstance(x, np.integer):
+        return int(x)
+    if isinstance(x, np.floating):
+        return float(x)
+    if isinstance(x, str):
+        return str(x)
+    return x
+
+
+def pack_tree(node):
+    """Trees are stored in a case as a JSON string: the framework's JSON conversion of cases
+    (replay files, hashes) stops at nesting depth 12, which deep trees exceed."""
+    import json
+    return json.dumps(plain(node), separators=(",", ":"))
+
+
+def tree_of(case):
+    import json
+    t = case["tree"]
+    return json.loads(t) if isinstance(t, str) else t
+
+
 def children(node):
     op = node["op"]
     if op in BIN:
